@@ -29,11 +29,22 @@ Record case := mkCase {
   c_version : N; c_protocol : N; c_codec : N; c_compression : N; c_stream : N;
   c_tls : bool; c_certs : bool; c_get : bool; c_limit : bool; c_cvm : N }.
 
+(* the parts of a TestCase message besides the request.  They are the test author's: expansion
+   and the gRPC-peer variants carry them along unchanged (proto.Clone of the whole message);
+   assert later reads other_allowed_error_codes and expected_response from the permutation. *)
+Record extras := mkX {
+  x_other : list N;              (* other_allowed_error_codes *)
+  x_expand : list N;             (* expand_requests: size_relative_to_limit of each entry *)
+  x_expected : option bytes }.   (* explicit expected_response (the mark the harness puts into it);
+                                    None: left to populateExpectedResponses (C02) *)
+Definition no_extras : extras := mkX [] [] None.
+
 (* message TestCase, as far as expansion looks at it.  t_junk: the request arrives with
    runner-owned fields already set; the model ignores it, the Go harness does not. *)
 Record tcase := mkT {
   t_name : bytes; t_stream : N; t_service : bytes; t_method : bytes;
-  t_rawreq : bool; t_rawresp : bool }.
+  t_rawreq : bool; t_rawresp : bool;
+  t_extras : extras }.
 
 (* message TestSuite *)
 Record suite := mkSuite {
@@ -49,7 +60,8 @@ Record perm := mkPerm {
   p_cert : bytes;          (* Request.ServerTlsCert *)
   p_creds : bool;          (* Request.ClientTlsCreds != nil (then both fields are the placeholder) *)
   p_service : bytes; p_method : bytes; p_limit : N;
-  p_rawreq : bool; p_rawresp : bool }.
+  p_rawreq : bool; p_rawresp : bool;
+  p_extras : extras }.       (* TestCase.{OtherAllowedErrorCodes, ExpandRequests, ExpectedResponse} *)
 
 (* type serverInstance *)
 Record inst := mkInst { i_protocol : N; i_version : N; i_tls : bool; i_certs : bool }.
@@ -146,7 +158,7 @@ Definition mk_perm (s : suite) (c : case) (t : tcase) (svc meth : bytes) : perm 
          (if c_tls c then placeholder else [])
          (c_tls c && c_certs c)
          svc meth c07_client_receive_limit
-         (t_rawreq t) (t_rawresp t).
+         (t_rawreq t) (t_rawresp t) (t_extras t).
 
 Definition mem_name (n : bytes) (lib : list perm) : bool := existsb (fun p => bytes_eqb n (p_name p)) lib.
 
@@ -300,7 +312,8 @@ Definition add_marker (full simple : bytes) (cl sv : bool) : bytes :=
 Definition rename (cl sv : bool) (p : perm) : perm :=
   mkPerm (add_marker (p_name p) (p_simple p) cl sv) (p_simple p)
          (p_version p) (p_protocol p) (p_codec p) (p_compression p) (p_stream p)
-         (p_cert p) (p_creds p) (p_service p) (p_method p) (p_limit p) (p_rawreq p) (p_rawresp p).
+         (p_cert p) (p_creds p) (p_service p) (p_method p) (p_limit p) (p_rawreq p) (p_rawresp p)
+         (p_extras p).
 
 Definition grpc_filter (cl sv : bool) (l : list perm) : list perm :=
   if negb cl && negb sv then l else map (rename cl sv) (filter (grpc_keep cl sv) l).
@@ -332,12 +345,29 @@ Definition find_group (n : bytes) (g : list (inst * list perm)) : option inst :=
 Definition sx_inst (k : inst) : sx :=
   L [sx_N (i_protocol k); sx_N (i_version k); sx_bool (i_tls k); sx_bool (i_certs k)].
 
+Definition sx_extras (x : extras) : sx :=
+  L [ L (map sx_N (x_other x)); L (map sx_N (x_expand x));
+      match x_expected x with Some m => L [B m] | None => L [] end ].
+
+Definition un_extras (s : sx) : option extras :=
+  match s with
+  | L [o; e; x] => do o <- un_listof un_N o; do e <- un_listof un_N e; do x <- un_opt un_B x; ret (mkX o e x)
+  | _ => None
+  end.
+
+(* name and other fields of a permutation as one byte string (codes, sizes and lengths are below
+   256 in every generated case), so that lists of them sort canonically even when a name occurs twice *)
+Definition extras_key (x : extras) : bytes :=
+  N.of_nat (length (x_other x)) :: x_other x ++ N.of_nat (length (x_expand x)) :: x_expand x
+  ++ match x_expected x with Some m => 1 :: m | None => [0] end.
+Definition perm_key (p : perm) : bytes := p_name p ++ 0 :: extras_key (p_extras p).
+
 Definition sx_perm (g : list (inst * list perm)) (p : perm) : sx :=
   L [ B (p_name p); B (p_simple p);
       sx_N (p_version p); sx_N (p_protocol p); sx_N (p_codec p); sx_N (p_compression p); sx_N (p_stream p);
       B (p_cert p); (if p_creds p then L [B placeholder; B placeholder] else L []);
       B (p_service p); B (p_method p); sx_N (p_limit p);
-      sx_bool (p_rawreq p); sx_bool (p_rawresp p);
+      sx_bool (p_rawreq p); sx_bool (p_rawresp p); sx_extras (p_extras p);
       match find_group (p_name p) g with Some k => sx_inst k | None => L [] end ].
 
 Definition un_Ns (s : sx) : option (list N) := un_listof un_N s.
@@ -347,7 +377,11 @@ Definition un_tcase (s : sx) : option tcase :=
   | L [n; st; sv; m; rq; rs; _junk] =>
     do n <- un_B n; do st <- un_N st; do sv <- un_B sv; do m <- un_B m;
     do rq <- un_bool rq; do rs <- un_bool rs;
-    ret (mkT n st sv m rq rs)
+    ret (mkT n st sv m rq rs no_extras)
+  | L [n; st; sv; m; rq; rs; _junk; x] =>
+    do n <- un_B n; do st <- un_N st; do sv <- un_B sv; do m <- un_B m;
+    do rq <- un_bool rq; do rs <- un_bool rs; do x <- un_extras x;
+    ret (mkT n st sv m rq rs x)
   | _ => None
   end.
 
@@ -381,7 +415,7 @@ Definition run_c07_lib (args : list sx) : sx :=
          | Ok lib =>
            let g := group_cases lib in
            L [ B (bs "ok"); L (map (sx_perm g) (sort_perms lib)); sx_nat (length g);
-               L (map B (sort_bytes (map p_name (all_permutations true true lib))));
+               L (map B (sort_bytes (map perm_key (all_permutations true true lib))));
                sx_nat (length (all_permutations false false lib));
                sx_nat (length (all_permutations true false lib));
                sx_nat (length (all_permutations false true lib));
@@ -395,16 +429,20 @@ Definition un_fperm (s : sx) : option perm :=
   | L [n; sn; p; v; cd; z; tls; rq; rs] =>
     do n <- un_B n; do sn <- un_B sn; do p <- un_N p; do v <- un_N v; do cd <- un_N cd; do z <- un_N z;
     do tls <- un_bool tls; do rq <- un_bool rq; do rs <- un_bool rs;
-    ret (mkPerm n sn v p cd z 1 (if tls then placeholder else []) false [] [] 0 rq rs)
+    ret (mkPerm n sn v p cd z 1 (if tls then placeholder else []) false [] [] 0 rq rs no_extras)
+  | L [n; sn; p; v; cd; z; tls; rq; rs; x] =>
+    do n <- un_B n; do sn <- un_B sn; do p <- un_N p; do v <- un_N v; do cd <- un_N cd; do z <- un_N z;
+    do tls <- un_bool tls; do rq <- un_bool rq; do rs <- un_bool rs; do x <- un_extras x;
+    ret (mkPerm n sn v p cd z 1 (if tls then placeholder else []) false [] [] 0 rq rs x)
   | _ => None
   end.
 
-(* ("c07.filter" id client server (perms)) -> names in order *)
+(* ("c07.filter" id client server (perms)) -> (name, the test case's other fields) in order *)
 Definition run_c07_filter (args : list sx) : sx :=
   or_bad (match args with
   | [cl; sv; ps] =>
     do cl <- un_bool cl; do sv <- un_bool sv; do ps <- un_listof un_fperm ps;
-    ret (L (map (fun p => B (p_name p)) (grpc_filter cl sv ps)))
+    ret (L (map (fun p => L [B (p_name p); sx_extras (p_extras p)]) (grpc_filter cl sv ps)))
   | _ => None end).
 
 Definition run_c07_join (args : list sx) : sx :=
